@@ -259,10 +259,38 @@ def _config_file_tables(out):
                   and len(top) == 1 and binds[0][0] < top[0][0] and call_args == ['parser'])
     out.append('/-- `parser.expansions` is bound once, before that call, to the dictionary the merge loop fills (an alias, not a copy) -/')
     out.append('def rc_parser_shares_expansions : Bool := %s' % ('true' if shares else 'false'))
+    # -- the restore at the start of a read (since the F53 repair): `if self.<A> is not None: self.environ_expansions.clear();
+    #    self.environ_expansions.update(self.<A>)` before the parser exists, where self.<A> is assigned exactly once in the module,
+    #    `self.<A> = dict(self.environ_expansions)`, as the statement right before the merge loop (class default `<A> = None`):
+    #    every read starts from the dictionary as it was before the previous read merged its [supervisord] environment= into it
+    restore_nodes, restores = set(), False
+    if len(merges) == 1 and binds:
+        for i, st in enumerate(body[:binds[0][0]]):
+            if not (isinstance(st, ast.If) and not st.orelse and isinstance(st.test, ast.Compare) and len(st.test.ops) == 1
+                    and isinstance(st.test.ops[0], ast.IsNot) and ast.unparse(st.test.comparators[0]) == 'None'
+                    and isinstance(st.test.left, ast.Attribute) and ast.unparse(st.test.left.value) == 'self'):
+                continue
+            snap = st.test.left.attr
+            if [ast.unparse(b) for b in st.body] != ['self.environ_expansions.clear()', 'self.environ_expansions.update(self.%s)' % snap]:
+                continue
+            stores = [n for n in ast.walk(t) if isinstance(n, ast.Attribute) and n.attr == snap and isinstance(n.ctx, (ast.Store, ast.Del))]
+            prev = body[merges[0][0] - 1] if merges[0][0] > 0 else None
+            ok_snap = (len(stores) == 1 and isinstance(prev, ast.Assign) and len(prev.targets) == 1 and prev.targets[0] is stores[0]
+                       and ast.unparse(prev) == 'self.%s = dict(self.environ_expansions)' % snap)
+            so_cls = cfg_find(t, 'ServerOptions')
+            defaults = [c for c in so_cls.body if isinstance(c, ast.Assign) and ast.unparse(c) == '%s = None' % snap]
+            names = [n for n in ast.walk(t) if isinstance(n, ast.Name) and n.id == snap and isinstance(n.ctx, ast.Store)]
+            if ok_snap and len(defaults) == 1 and len(names) == 1:
+                restores = True
+                restore_nodes.update(id(n) for n in ast.walk(st))
+                restore_nodes.update(id(n) for n in ast.walk(prev))
+    out.append('/-- read_config begins by putting the ENV_ expansions back to the snapshot it took, in the previous read, right before')
+    out.append('    merging that read\'s [supervisord] environment= (no-op in the first read): each read starts from the constructor\'s dictionary -/')
+    out.append('def rc_restores_snapshot_before_read : Bool := %s' % ('true' if restores else 'false'))
     # -- anything else in read_config that rebinds, empties or removes from either dictionary
     others = []
     dicts = {'parser.expansions', bind_src or 'self.environ_expansions', 'self.environ_expansions'}
-    merge_nodes = set()
+    merge_nodes = set(restore_nodes)
     for i, _, _, _ in merges:
         merge_nodes.update(id(n) for n in ast.walk(body[i]))
     for n in ast.walk(rc):
